@@ -608,11 +608,15 @@ def rule_V(ctx, rid='C09.V', only=None):
         feats, obsarg, modeval = None, 'y', None
         if obsmode is not None:
             mname, names_ = obsmode
-            modeval = MODES.get(mname)
+            modeval = MODES.get(mname) if mname != 'list-valued' else MODES.get('MODE_OBS_AS_SCALAR')
             if modeval is None:
                 raise shape_error('%s not found in tracklib.algo.dynamics' % mname, f.loc())
             feats = {nm: ['%s%d' % (nm, k) for k in range(T_)] for nm in names_}
-            obsarg = list(names_)
+            if mname == 'list-valued':
+                # one observed feature whose VALUE is a list (of one, two or no element): it reaches the observation model as it is
+                modeval = MODES.get('MODE_OBS_AS_SCALAR')
+                feats = {nm: [[['v%d' % k], ['v%d' % k, 'w'], []][k % 3] for k in range(T_)] for nm in names_}
+            obsarg = list(names_) if mname != 'list-valued' else names_[0]
             dim = 2 if '2D' in mname and 'OBS' in mname else (3 if '3D' in mname and 'OBS' in mname else 0)
             ys = []
             for k in range(T_):
@@ -721,6 +725,11 @@ def rule_V(ctx, rid='C09.V', only=None):
                 ((2, 2), [[50.0, 70.0], [0.0, 0.0]], [{(0, 0): 60.0, (0, 1): 75.0, (1, 0): 45.0, (1, 1): 41.0}], 'tiny likelihoods (1e-18 .. 1e-33) that differ'),
         ):
             decode(sizes, emis, trans, logmode, label, 'zeros and ones')
+    if only is not None and 'single epoch' in only:
+        # a track of one observation: its candidate of highest observation likelihood is written
+        for sizes in ((3,), (1,), (2,)):
+            for tgt in range(sizes[0]):
+                decode(sizes, [[0.1 if i == tgt else 2.3 for i in range(sizes[0])]], [], False, 'single epoch, unique optimum %d of %d' % (tgt, sizes[0]), 'single epoch')
     for logmode in (False, True):
         # (d) the same decoder object and the same track used again with another model (stationary flag on): nothing of the first
         #     decoding may survive into the second
@@ -746,7 +755,7 @@ def rule_V(ctx, rid='C09.V', only=None):
     for mname, names_ in (('MODE_OBS_AS_SCALAR', ['a', 'b']), ('MODE_OBS_AS_SCALAR', ['a', 'b', 'c']), ('MODE_OBS_AS_2D_POSITIONS', ['x', 'y']), ('MODE_OBS_AS_2D_POSITIONS', ['x', 'y', 'a']),
                           ('MODE_OBS_AS_2D_POSITIONS', ['x', 'y', 'a', 'b']), ('MODE_OBS_AS_3D_POSITIONS', ['x', 'y', 'z']), ('MODE_OBS_AS_3D_POSITIONS', ['x', 'y', 'z', 'a']),
                           ('MODE_OBS_AS_3D_POSITIONS', ['x', 'y', 'z', 'a', 'b']), ('MODE_OBS_AND_STATES_AS_2D_POSITIONS', ['x', 'y', 'a']), ('MODE_OBS_AND_STATES_AS_3D_POSITIONS', ['x', 'y', 'z', 'a']),
-                          ('MODE_STATES_AS_2D_POSITIONS', ['a', 'b', 'c']), ('MODE_STATES_AS_3D_POSITIONS', ['a', 'b', 'c', 'd'])):
+                          ('MODE_STATES_AS_2D_POSITIONS', ['a', 'b', 'c']), ('MODE_STATES_AS_3D_POSITIONS', ['a', 'b', 'c', 'd']), ('list-valued', ['a'])):
         if only is not None and mname != 'MODE_OBS_AND_STATES_AS_2D_POSITIONS':
             continue
         for target in ((0, 1, 1), (1, 0, 1)):
